@@ -114,6 +114,17 @@ where
             }
             acc.take().as_u128().to_string()
         }
+        "dotarr" => {
+            // array form of the deferred-reduction accumulator, 2 lanes: lane 0 = Σ a_i·b_i, lane 1 = Σ b_i·b_i
+            use crate::ff::MultiplyAccumulatorArray;
+            let (a, b) = (list(args[0]), list(args[1]));
+            let mut acc = <<F as MultiplyAccumulate>::AccumulatorArray<2> as MultiplyAccumulatorArray<F, 2>>::new();
+            for (x, y) in a.iter().zip(b.iter()) {
+                acc.multiply_accumulate(&[*x, *y], &[*y, *y]);
+            }
+            let r = acc.take();
+            format!("{},{}", r[0].as_u128(), r[1].as_u128())
+        }
         "sum" => list(args[0]).into_iter().sum::<F>().as_u128().to_string(),
         _ => panic!("harness: unknown op {op}"),
     }
@@ -575,6 +586,7 @@ fn gen_pf(rng: &mut Rng, thorough: bool, out: &mut Vec<String>, name: &str, p: u
                 .map(|i| match k { 0 => p - 1, 1 => if i % 2 == 0 { (1u128 << (bits - 1)) % p } else { p - 1 }, _ => rng.next_u128() % p })
                 .collect();
             out.push(format!("c08.pf {f} dot {} {}", nat_list(&a), nat_list(&b)));
+            out.push(format!("c08.pf {f} dotarr {} {}", nat_list(&a), nat_list(&b)));
         }
         let a: Vec<u128> = (0..n).map(|_| rng.next_u128() % p).collect();
         out.push(format!("c08.pf {f} sum {}", nat_list(&a)));
